@@ -866,7 +866,7 @@ class Check(PropertyCheck):
             cases.append({'k': 'ns', 'files': files, 'runs': [cli], 'nofile_runs': []})
         impl = lib.run_impl_worker(WORKER, cases, jobs=16, timeout=3000)
         self.evaluations += len(cases)
-        order = ['pydoctor.ini', 'pyproject.toml', 'setup.cfg']      # configargparse: reversed(default_config_files)
+        order = ['pydoctor.ini', 'setup.cfg', 'pyproject.toml']      # configargparse: reversed(DEFAULT_CONFIG_FILES)
         mod_in = []
         for c, r in zip(cases, impl):
             fv = []
